@@ -607,7 +607,13 @@ class ExtendedKalmanFilter:
             G_t, np.matmul(covariance.data, G_t.transpose())
         )
         assert next_state_covariance.shape == covariance.shape
-        assert_valid_covariance(next_state_covariance)
+        # a covariance that passed the check above (eigenvalues within rounding
+        # of zero relative to its magnitude) keeps passing once projected
+        projected_magnitude = float(
+            np.max(np.abs(covariance.data), initial=0.0)
+            * max(1.0, self.state_size * np.max(np.abs(G_t), initial=0.0)) ** 2
+        )
+        assert_valid_covariance(next_state_covariance, magnitude=projected_magnitude)
 
         next_control_covariance = np.matmul(
             V_t, np.matmul(self.process_noise, V_t.transpose())
@@ -617,7 +623,7 @@ class ExtendedKalmanFilter:
 
         next_covariance = next_state_covariance + next_control_covariance
         assert next_covariance.shape == covariance.shape
-        assert_valid_covariance(next_covariance)
+        assert_valid_covariance(next_covariance, magnitude=projected_magnitude)
 
         next_state = self._state_model.model(dt, state, control)
         assert isinstance(next_state, self.State)
@@ -675,7 +681,10 @@ class ExtendedKalmanFilter:
         assert_valid_covariance(
             S_t,
             name="Sensor Uncertainty",
-            magnitude=float(np.max(np.abs(covariance.data), initial=0.0)),
+            magnitude=float(
+                np.max(np.abs(covariance.data), initial=0.0)
+                * max(1.0, self.state_size * np.max(np.abs(H_t), initial=0.0)) ** 2
+            ),
         )
 
         S_inv = np.linalg.inv(S_t)
